@@ -70,6 +70,8 @@ func main() {
 		os.Exit(check(os.Args[2], "thorough", modeExplore, from, to))
 	case "replay":
 		os.Exit(replay(os.Args[2]))
+	case "probe":
+		probe(os.Args[2:])
 	case "needs":
 		if p := props[os.Args[2]]; p != nil {
 			fmt.Println(p.Build)
@@ -77,7 +79,11 @@ func main() {
 	case "case":
 		// print a universe case: vcheck case D 123
 		i, _ := strconv.ParseUint(os.Args[3], 10, 64)
-		printCase(os.Args[2], i)
+		if os.Args[2] == "P" {
+			printPCase(i)
+		} else {
+			printCase(os.Args[2], i)
+		}
 	default:
 		usage()
 	}
@@ -755,18 +761,29 @@ func printClusters(fs []Failure) {
 		n     int
 		cases map[uint64]bool
 		best  Failure
+		more  []Failure
+		pats  map[string]bool
 	}
+	nex, _ := strconv.Atoi(os.Getenv("VERIF_CLUSTER_EX"))
 	m := map[string]*cl{}
 	for _, f := range fs {
 		layer := "strategy-path"
 		if f.Ref != "" && refAgrees(&f) {
 			layer = "shared-nfa"
 		}
-		k := fmt.Sprintf("%-28s %-26s %-9s %s", apiGroup(f.API), f.Strategy, f.Region, layer)
+		ag := apiGroup(f.API)
+		if os.Getenv("VERIF_CLUSTER_API") == "" && ag != "CRASH" && ag != "STALL" && ag != "Compile" {
+			ag = "*"
+		}
+		k := fmt.Sprintf("%-12s %-26s %-9s %s", ag, f.Strategy, f.Region, layer)
 		c := m[k]
 		if c == nil {
-			c = &cl{cases: map[uint64]bool{}, best: f}
+			c = &cl{cases: map[uint64]bool{}, best: f, pats: map[string]bool{}}
 			m[k] = c
+		}
+		if !c.pats[f.Pattern] && len(c.more) < nex && len(f.Haystack) < 80 {
+			c.pats[f.Pattern] = true
+			c.more = append(c.more, f)
 		}
 		c.n++
 		c.cases[f.Idx] = true
@@ -783,6 +800,9 @@ func printClusters(fs []Failure) {
 		c := m[k]
 		fmt.Printf("CLUSTER n=%-6d cases=%-5d %s\n    e.g. i=%d %s %s pattern=%q haystack=%s got=%s want=%s ref=%s %s\n", c.n, len(c.cases), k,
 			c.best.Idx, c.best.Sub, c.best.API, c.best.Pattern, clip(c.best.Haystack, 160), clip(c.best.Got, 100), clip(c.best.Want, 100), clip(c.best.Ref, 60), clip(c.best.Note, 300))
+		for _, x := range c.more {
+			fmt.Printf("      + i=%d %s %s pattern=%q haystack=%s got=%s want=%s ref=%s\n", x.Idx, x.Sub, x.API, x.Pattern, clip(x.Haystack, 100), clip(x.Got, 60), clip(x.Want, 60), clip(x.Ref, 40))
+		}
 	}
 }
 
